@@ -12,6 +12,7 @@ from vlib.obs import Err, guarded, gz, gzlist, gbool, glist, E_LSS
 from ref.lss_slave import LssSlave, ScriptPeer
 
 PROP = "C18"
+ANCHORS = [('canopen.lss', 'LssMaster')]
 MODEL_VO = ["theories/Model/Lss.vo"]
 COQ_IMPORTS = "From CV Require Import Model.RefLssSlave Model.Lss."
 COQ_RUN = "run_lss"
